@@ -100,8 +100,7 @@ MUTANTS = [
      "weight_dict = {instruction.theta_value: min(instruction.gas_cost, 3)"),
     ("C08", "gasol_asm.py", "    if saved_criterion > 0:\n        return True\n    elif saved_criterion == 0:",
      "    if saved_criterion >= 0:\n        return True\n    elif saved_criterion == 0:"),
-    ("C09", "solution_generation/optimize_from_sub_blocks.py", "            if previously_optimized:\n                optimized_instructions.append(previous_instructions[instr_idx-1])",
-     "            if previously_optimized and sub_block_idx > 1:\n                optimized_instructions.append(previous_instructions[instr_idx-1])"),
+    ("C09", "sfs_generator/asm_json.py", 'final_asm = {"version": self.version}', 'final_asm = {"version": self.version.split("+")[0]}'),
     ("C10", "gasol_asm.py", "    try:\n        return _compare_asm_block_asm_format(old_block, new_block, params)\n    except Exception as e:",
      "    try:\n        return _compare_asm_block_asm_format(old_block, new_block, params)\n    except ZeroDivisionError as e:"),
     ("C11", "gasol_asm.py", "chosen_ids = greedy_ids if chosen_tag in ('greedy', 'greedy_no_model') else optimized_ids",
